@@ -678,10 +678,56 @@ def rand_args(rng, kind, name, keys, vals, nlen, fresh=None):
     if name == "pop":
         return A(k=k, v=DFLT, hasdef=True) if rng.random() < 0.4 else A(k=k)
     if kind == "HeaderSet" and name == "setitem_idx":
-        # item assignment is only modelled when it keeps the items distinct: assign a fresh item
-        fresh[0] += 1
-        return A(k=f"n{fresh[0] % 4}" if fresh[0] <= 4 else k, idx=rng.randint(-(nlen + 1), nlen)) if fresh[0] <= 4 else A(k=k, idx=99)
+        # any item: a current member, a case variant, another member's name, a fresh one - the generator does
+        # not know which; positional_jobs() below enumerates the classes deliberately
+        x = rng.choice(keys)
+        return A(k=x.swapcase() if rng.random() < 0.3 else x, idx=rng.randint(-(nlen + 1), nlen))
+    if name in ("delitem_slice", "setitem_slice"):
+        src = [(rng.choice(keys), [rng.choice(vals)]) for _ in range(rng.randint(0, 2))] if name == "setitem_slice" else []
+        return A(src=src, form="pairs", idx=rng.randint(-(nlen + 1), nlen + 1), idx2=rng.randint(-(nlen + 1), nlen + 1))
     return A(k=k, v=v, idx=rng.randint(-(nlen + 1), nlen))
+
+
+def positional_jobs(rng, limit=None):
+    """Deliberate boundary cases of the positional operations, each on a freshly built object whose content
+    the generator knows: HeaderSet item assignment hs[i] = x with x drawn from {the member at i, a case
+    variant of it, another member's name, a case variant of that, a fresh name} at EVERY index including
+    negative and out-of-range ones; Headers pop(i) / del h[i] / h[i] = (k, v) / pop() / del h[i:j] /
+    h[i:j] = lines at 0, -1, len-1, len, -len, -len-1.  A follow-up call shows that the object is still
+    coherent.  All reads are recorded after every step.  Returns [(probe keys, steps)]."""
+    jobs = []
+    for L in (["a", "B", "gzip"], ["x-y", "Cookie"], ["Vary"], []):
+        n = len(L)
+        for i in range(-(n + 1), n + 1):
+            p = i + n if i < 0 else i
+            ref = L[p] if 0 <= p < n else (L[0] if L else "a")
+            others = [y for y in L if y != ref]
+            cands = [ref, ref.swapcase(), "fresh"] + ([others[-1], others[-1].swapcase()] if others else [])
+            for x in cands:
+                steps = [{"op": "new", "kind": "HeaderSet", "a": A(vs=L), "over": []},
+                         {"op": "call", "o": 1, "name": "setitem_idx", "a": A(k=x, idx=i)},
+                         {"op": "call", "o": 1, "name": "discard", "a": A(k=x.swapcase())},
+                         {"op": "call", "o": 1, "name": "add", "a": A(k=x)}]
+                jobs.append((probe_keys("HeaderSet", L + [x]), steps))
+    for P in ([], [("a", "1")], [("a", "1"), ("B", "2")], [("a", "1"), ("b", "2"), ("A", "3")]):
+        n = len(P)
+        new = lambda: {"op": "new", "kind": "Headers", "a": A(src=[(k, [v]) for k, v in P], form="pairs"), "over": []}
+        after = {"op": "call", "o": 1, "name": "set", "a": A(k="a", v="z")}
+        keys = probe_keys("Headers", [k for k, _ in P] + ["c", "new"])
+        idxs = sorted({0, -1, n - 1, n, -n, -n - 1, 1})
+        calls = [("pop_last", A())]
+        for i in idxs:
+            calls += [("pop_idx", A(idx=i)), ("delitem_idx", A(idx=i)),
+                      ("setitem_idx", A(k="A", v="9", idx=i)), ("setitem_idx", A(k="new", v="9", idx=i))]
+        for i, j in ((0, 1), (0, n), (n - 1, n), (-1, n), (1, 0), (n, n + 1), (-n - 1, 1), (0, -1)):
+            calls.append(("delitem_slice", A(idx=i, idx2=j)))
+            for src in ([], [("c", ["7"])], [("a", ["8"]), ("c", ["7"])]):
+                calls.append(("setitem_slice", A(src=src, form="pairs", idx=i, idx2=j)))
+        for name, a in calls:
+            jobs.append((keys, [new(), {"op": "call", "o": 1, "name": name, "a": a}, after]))
+    if limit is not None and len(jobs) > limit:
+        jobs = rng.sample(jobs, limit)
+    return jobs
 
 
 def gen_twins(rng):
@@ -800,7 +846,7 @@ def gen_script(rng, family: str, nsteps: int):
         name = rng.choice(muts)
         if name == "add_file" and kind != "FileMultiDict":
             name = "add"
-        pk = ENV_PROBES if kind == "EnvironHeaders" else (keys[:5] if kind == "HeaderSet" else keys)
+        pk = ENV_PROBES if kind == "EnvironHeaders" else ((keys if name == "setitem_idx" else keys[:5]) if kind == "HeaderSet" else keys)
         steps.append({"op": "call", "o": o, "name": name, "a": rand_args(rng, kind, name, pk, vals or keys, 3, fresh)})
     if family == "environ":
         pkeys = ENV_PROBES
